@@ -86,7 +86,7 @@ def analyse(f, op, is_assign):
     return apps, '', summ
 
 
-def check_impl(f, op, is_assign, reference_ok=None):
+def check_impl(f, op, is_assign, reference_ok=None, ordered=('Sub', 'Div')):
     """ok/why for the generic rule: every self×rhs operator application uses `op`, self on the left for Sub/Div."""
     apps, why, summ = analyse(f, op, is_assign)
     if apps is None:
@@ -94,6 +94,6 @@ def check_impl(f, op, is_assign, reference_ok=None):
     for n, o, lr, rr in apps:
         if o != op:
             return False, 'impl of %s combines self and rhs with %s: %s' % (op, o, hir.pp(n)[:120]), summ
-        if op in ('Sub', 'Div') and not (lr == {'self'} and rr == {'rhs'}):
+        if op in ordered and not (lr == {'self'} and rr == {'rhs'}):
             return False, 'operand order: %s must be self %s rhs, found %s' % (op, op, hir.pp(n)[:120]), summ
     return True, '', summ
